@@ -122,6 +122,11 @@ PROPS["C10"] = [
     H("test_function", "c10_value_" + k, funcs=["query::test_function::value"], symbolic="node payloads",
       shape="nodelist " + k, est=8) for k in ("refs0", "refs1", "refs2", "refs3", "ref")
 ]
+PROPS["C10"] += [
+    H("test_function", "c10_%s_in_cmp" % k, funcs=["query::comparison::Comparison::process", "query::comparable::Comparable::process (Function)", "query::test_function::TestFunction::apply", "query::test_function::" + k],
+      symbolic=sym, shape="%s(@) == c through Comparison::process" % k, est=15)
+    for k, sym in (("length", "array length 0..2, constant c"), ("count", "constant c"), ("value", "constant c"))
+]
 PROP_INFO["C10"] = {
     "bounds": "length: strings of 0..3 scalars at the listed UTF-8 width patterns (any content), arrays/objects <= 3 entries, every scalar kind, empty nodelist; count/value: nodelists of 0..3 nodes, single node, nothing",
     "outside": ["match() and search(): the regex crate cannot be compiled by Kani (ICE in regex_automata) - not claimed",
